@@ -289,7 +289,10 @@ def diff_flat(a, b, ignore_encoding=lambda key: False, kind="tree-differs"):
                 continue
             aspects = varleaf_diff(va, vb, ignore_encoding(key))
             if aspects:
-                out.append(disc(kind, key, va, vb, aspects=aspects))
+                ctx = {"aspects": aspects}
+                if "load_error" in aspects:
+                    ctx["load_error"] = str(vb.load_error)[:80]
+                out.append(disc(kind, key, va, vb, **ctx))
         elif not obj_equal(va, vb):
             out.append(disc(kind, key, va, vb))
     return out
